@@ -222,7 +222,20 @@ def p_below(x, limit=2):
     return x.p < limit
 
 
-PREDICATE_FUNCS = {"p_below": p_below, "p_eq": p_eq, "p_lt": p_lt, "val_eq": val_eq, "p_eq_nested": p_eq_nested, "p_eq_inner": p_eq_inner}
+@predicate
+def p_val(x):
+    """a user function used as a VALUE: what it returns is compared / selected / passed on, falsy or not"""
+    LOG.hit("p_val", getattr(x, "tag", x))
+    return x.p
+
+
+@predicate
+def s_val(x):
+    LOG.hit("s_val", getattr(x, "tag", x))
+    return x.s
+
+
+PREDICATE_FUNCS = {"p_val": p_val, "s_val": s_val, "p_below": p_below, "p_eq": p_eq, "p_lt": p_lt, "val_eq": val_eq, "p_eq_nested": p_eq_nested, "p_eq_inner": p_eq_inner}
 PREDICATE_CLASSES = {"PEq": PEq, "PLt": PLt, "HasType": HasType}
 
 
